@@ -76,6 +76,9 @@ def render(groups, style, indent, rnd, wants=None):
                 in_string = True
             if kind == 'string' and ln.endswith("'''") and j > 0:
                 in_string = False
+            # classic style: a bare '...' line closes a compound statement
+            if style == 'ps2_term' and ln.startswith('    ') and (j + 1 == len(lines) or (j + 1) in starts):
+                doc.append(pad + '...')
         if wants is not None and wants[gi] is not None:
             doc.extend(pad + w for w in wants[gi].rstrip('\n').split('\n'))
         if gi < len(groups) - 1 and rnd.random() < 0.4:
@@ -125,7 +128,7 @@ def run(eng, tier, seed):
             lines, kind = rnd.choice(STATEMENTS)
             groups.append(([ln.format(k=k0 + j) for ln in lines], kind))
         groups.append((FINAL, None))
-        style = rnd.choice(['ps1', 'ps2', 'unprefixed'])
+        style = rnd.choice(['ps1', 'ps2', 'unprefixed', 'ps2_term'])
         wants = None
         if rnd.random() < 0.5:
             # correct wants (everything written since the previous want) after some of the groups that write something
